@@ -196,7 +196,7 @@ def pol_op():
     )
 
 
-def fock_op(allow_big=True):
+def fock_op(allow_big=True, allow_nonunitary=False):
     opts = [
         st.just(dict(type="fock:Creation")),
         st.just(dict(type="fock:Annihilation")),
@@ -205,6 +205,10 @@ def fock_op(allow_big=True):
         st.builds(lambda s: dict(type="fock:Custom", useed=s), seeds),
         st.builds(lambda t: dict(type="fock:Expresion", params=dict(phi=t)), angle),
     ]
+    if allow_nonunitary:
+        # a user operator that is NOT unitary through the non-renormalising Custom type: the state leaves
+        # the unit-trace regime (legitimate for C01/C08, excluded by C07's quantifier)
+        opts.append(st.builds(lambda s: dict(type="fock:Custom", useed=s, unitary=False), seeds))
     if allow_big:
         opts += [
             st.builds(lambda a: dict(type="fock:Displace", params=dict(alpha=a)), small_c),
@@ -220,8 +224,11 @@ def custom_op():
     )
 
 
+NONUNITARY_FOCK = [False]   # switched on by the property modules whose statement covers such operators
+
+
 def op_for_kind(kind: str, allow_big=True):
-    return {"pol": pol_op(), "fock": fock_op(allow_big), "custom": custom_op()}[kind]
+    return {"pol": pol_op(), "fock": fock_op(allow_big, NONUNITARY_FOCK[0]), "custom": custom_op()}[kind]
 
 
 # ----------------------------------------------------------------------------------------
